@@ -283,6 +283,57 @@ def run(chk):
     _grow_rule(chk, prog)
     _tombstone_rule(chk, prog)
     _index_rule(chk, prog)
+    _setcount_rule(chk, prog)
+
+
+def _setcount_rule(chk, prog):
+    rule = "C04-SETCOUNT"
+    chk.rule(rule, "growing an array/buffer through setcount fills the new slots (nil / zero) before publishing the new count")
+    for unit, fname, kind in (("array.c", "janet_array_setcount", "array"), ("buffer.c", "janet_buffer_setcount", "buffer")):
+        fn = prog.need_func(fname, unit)
+        chk.analysed(fn)
+        fill_nodes = set()
+        for n in fn.nodes:
+            if n.k == "for" and n.kids[1] is not None:
+                stores = [x for x in n.kids[3].walk() if x.k == "asg"]
+                if len(stores) == 1 and stores[0].kids[0].k == "sub" and "janet_wrap_nil" in strip_casts(stores[0].kids[1]).macro_names():
+                    fill_nodes.add(n.kids[1].id)
+            if n.k == "call" and n.callee == "memset" and any(x.k == "mem" and x.field == "data" for x in n.args[0].walk()):
+                fill_nodes.add(n.id)
+
+        def transfer(st, n):
+            if n.id in fill_nodes:
+                return st | frozenset(["filled"])
+            return st
+
+        def edge(st, blk, succ, cond, truth):
+            if cond is None:
+                return st
+            c = flow.compare_of(cond, truth)
+            if c is None or c[2] is None:
+                return st
+            l, op, r = strip_casts(c[0]), c[1], strip_casts(c[2])
+            if op == ">" and is_ref(l, "count") and r.k == "mem" and r.field == "count":
+                return st | frozenset(["growing"])
+            if op == "<" and is_ref(r, "count") and l.k == "mem" and l.field == "count":
+                return st | frozenset(["growing"])
+            return st
+        IN, OUT, T = flow.forward_paths(fn, frozenset(), transfer, edge)
+        found = False
+        for b, S in IN.items():
+            for n in fn.blocks[b].elems:
+                if n.k == "asg" and n.op == "=" and n.kids[0].k == "mem" and n.kids[0].field == "count" and is_ref(strip_casts(n.kids[1]), "count"):
+                    found = True
+                    chk.instance(rule)
+                    if all(("growing" not in s) or ("filled" in s) for s in S):
+                        chk.ok(rule, "%s: new slots filled before count is raised" % fname)
+                    else:
+                        chk.violation(rule, unit, fname, "fill", n.loc,
+                                      "%s raises count on the growing path without filling the newly exposed slots: values left behind "
+                                      "by an earlier shrink (or uninitialised memory) become elements" % fname)
+                S = T(S, n)
+        if not found:
+            raise AnalysisBroken("%s: store of count not found" % fname)
 
 
 # ------------------------------------------------------------------------------------------------
